@@ -369,13 +369,13 @@ Notation Mset a := (fregions (a_free (meta a))).
 Record Inv0 (a0 : allocst) : Prop := {
   i0_data : DataInv a0;
   i0_mwf : wff 2 (a_free (meta a0));
-  i0_ends : a_end (meta a0) = a_end (data a0);
+  i0_ends : a_end (data a0) <= a_end (meta a0);
   i0_mbelow : forall id, inl id (Mset a0) -> ~ inl id (Dset a0) /\ id < a_end (data a0) }.
 
 Record FullInv (a0 a : allocst) (t : txst) : Prop := {
   fi_data : DataInv a;
   fi_dend : t_end (tdata t) = a_end (data a0);
-  fi_mend : t_end (tmeta t) = a_end (data a0);
+  fi_mend : t_end (tmeta t) = a_end (meta a0);
   fi_ends : a_end (data a0) <= a_end (data a) /\ a_end (data a) <= a_end (meta a);
   fi_dsorted : sorted_from 2 (t_allocated (tdata t));
   fi_msorted : sorted_from 2 (t_allocated (tmeta t));
@@ -398,7 +398,7 @@ Proof.
   intros [ID MW ME MB]. constructor; cbn.
   - exact ID.
   - reflexivity.
-  - exact ME.
+  - reflexivity.
   - lia.
   - constructor.
   - constructor.
@@ -884,8 +884,8 @@ Proof.
   destruct (area_rollback_spec (meta a) (tmeta t) Fmw) as (Em1 & Wm1 & Hsm1 & _).
   { intros id H. destruct (Fmb _ H) as [_ B]. lia. }
   { exact Fms. }
-  { rewrite Fme. unfold e0. lia. }
-  { rewrite Fme. exact Hsmall. }
+  { rewrite Fme. unfold e0 in *. lia. }
+  { rewrite Fme. unfold e0 in *. lia. }
   { intros id H _. apply Fmd. exact H. }
   cbv zeta. rewrite rollback_unfold. cbv zeta.
   destruct (fold_left (rb_step (t_end (tdata t))) (moveToMeta t)
@@ -899,7 +899,7 @@ Proof.
   assert (Hmset: forall id, inl id (fregions mf) <-> inl id (Mset a0)).
   { intros id. rewrite Hsmf, Hsm1, Fme. split.
     - intros [[Hlt Hor] Hnv]. assert (H: inl id (Mset a0) \/ inl id (moveToMeta t)) by (apply Fmset; exact Hor). tauto.
-    - intros H0. destruct (MB0 _ H0) as [_ B]. split; [|apply Hmvdis; exact H0]. split; [exact B|]. apply Fmset. left. exact H0. }
+    - intros H0. destruct (MB0 _ H0) as [_ B]. split; [|apply Hmvdis; exact H0]. split; [unfold e0 in *; lia|]. apply Fmset. left. exact H0. }
   (* the data area *)
   set (td := {| t_end := t_end (tdata t); t_allocated := dalloc; t_new := t_new (tdata t); t_freed := t_freed (tdata t) |}).
   destruct (area_rollback_spec (data a) td Wd Hbd) as (Ed & Wdr & Hsd & _).
@@ -920,7 +920,7 @@ Proof.
   destruct Fst as (Z1 & Z2 & Z3 & Z4).
   split; [exact Z1|]. split; [exact Z2|]. split; [exact Z3|]. split; [exact Z4|].
   split; [rewrite Hmt, Ftot, Fo1; lia|].
-  split; [rewrite Em1, Fme, ME0; reflexivity|].
+  split; [rewrite Em1, Fme; reflexivity|].
   split; [exact Wmf|]. split; [exact Hmset|].
   split; [destruct Wmf as [A1 A2]; destruct MW0 as [B1 B2]; rewrite A2, B2; apply (same_set_count _ _ 2 A1 B1 Hmset)|].
   split; [exact Ed|]. split; [exact Wdr|]. split; [exact Hdset|].
